@@ -51,6 +51,8 @@ async function build(v) {
             const o = {};
             for (const [k, x] of Object.entries(v.fields)) o[k] = await build(x);
             const C = await cls(v.ty);
+            // the declared parameter type is the plain `<Type>_obj`: half of the top-level struct arguments are passed that way
+            if (v.plain) { await cls(v.ty); return o; }
             return C.fromFields(o);
         }
     }
